@@ -98,6 +98,11 @@ def gen_append(r, F, R, X):
         elif c < 0.8:
             below = [list(p) for p in fp if len(p) > len(tgt) and list(p[:len(tgt)]) == tgt]
             ep = r.choice(below) if below else tgt
+        elif c < 0.87:
+            # a SIBLING of the node in the file, by preference one whose name merely starts with the node's name
+            sibs = [list(p) for p in fp if len(p) == len(tgt) and len(p) > 0 and list(p[:-1]) == tgt[:-1] and list(p) != tgt]
+            pref = [p for p in sibs if tgt and p[-1].startswith(tgt[-1])]
+            ep = r.choice(pref or sibs) if sibs else list(r.choice(fp))
         elif c < 0.93:
             ep = list(r.choice(fp))
         else:
